@@ -52,3 +52,17 @@ Proof.
 Qed.
 
 Eval vm_compute in (SL.eval_cells sup_example2).
+
+(* the unconditional theorem for the whole stage-5 fragment, on the example of FullBridgeC06.v: a closure over a try-block
+   local written after the capture, a `for` loop with `continue` and a `break` that pops a local, try / catch *)
+From YV Require FullBridgeC06.
+Example stage5_bridge_example :
+  exists funs f, SC.compile_scope ScopeRun.the_cfg FullBridgeC06.bridge_example = Some funs /\
+                 compile_program (tr_prog FullBridgeC06.bridge_example) = COk f /\ decode_tree f = Some funs.
+Proof.
+  destruct (SC.compile_scope ScopeRun.the_cfg FullBridgeC06.bridge_example) as [funs|] eqn:Es; [|vm_compute in Es; discriminate].
+  destruct (compile_program (tr_prog FullBridgeC06.bridge_example)) as [f|l m] eqn:Ef; [|vm_compute in Ef; discriminate].
+  exists funs, f. split; [reflexivity|]. split; [reflexivity|].
+  exact (bridge_C06_stage5 ScopeRun.the_cfg FullBridgeC06.bridge_example funs f eq_refl eq_refl eq_refl
+           (repr_ok_small FullBridgeC06.bridge_example ltac:(vm_compute; reflexivity)) Es Ef).
+Qed.
